@@ -1122,10 +1122,12 @@ func (ctx *RenderContext) evaluateExpression(node Node) (interface{}, error) {
 		if n.test == "defined" {
 			// Check if this is a GetAttrNode
 			if getAttrNode, ok := n.node.(*GetAttrNode); ok {
-				// Evaluate the object
+				// Evaluate the object. A failure in it (a function, filter or
+				// macro that fails or does not exist) is a failure of the render,
+				// not an answer to the question
 				obj, err := ctx.EvaluateExpression(getAttrNode.node)
 				if err != nil {
-					return false, nil // If can't evaluate the object, it's not defined
+					return nil, err
 				}
 
 				// If obj is nil, attribute not defined
@@ -1136,7 +1138,7 @@ func (ctx *RenderContext) evaluateExpression(node Node) (interface{}, error) {
 				// Evaluate the attribute name
 				attrNameNode, err := ctx.EvaluateExpression(getAttrNode.attribute)
 				if err != nil {
-					return false, nil
+					return nil, err
 				}
 
 				attrName, ok := attrNameNode.(string)
